@@ -12,7 +12,7 @@ from common import run_model
 
 ID = "C02"
 LEVEL = "proof"
-GEN = ["TmplGen", "UtilGen", "RxGen", "UnicodeGen"]
+GEN = ["TmplGen", "UtilGen", "RxGen", "UnicodeGen", "InlineGen", "BlockGen", "NormalizeGen"]
 COQ = ["Props/C02.vo"]
 EXPLANATION = (
     "Every HTML render function (20 HTMLRenderer methods, 32 plugin/directive functions) is translated from its Python "
@@ -94,7 +94,7 @@ def _gen_args(r, q, sig):
     return kw
 
 
-def correspondence(ctx):
+def _template_correspondence(ctx):
     m = ctx.mistune
     r = ctx.rng("corr")
     fns = _functions(m)
@@ -265,3 +265,11 @@ def replay(ctx, case):
         if name == c.get("config"):
             check_doc(name, md, c["input"], fails, escape=(name != "html-noescape"))
     return fails[0] if fails else None
+
+
+def correspondence(ctx):
+    import corr_html
+    a = _template_correspondence(ctx)
+    b = corr_html.run(ctx, ctx.n(1500, 30000))
+    return {"evaluations": a["evaluations"] + b["evaluations"], "disagreements": (a["disagreements"] + b["disagreements"])[:20],
+            "parts": {"render functions": a["evaluations"], "whole core conversion to HTML": b["evaluations"]}, "samples": a.get("samples", [])}
